@@ -324,6 +324,16 @@ def _identity(w, e, s, l, r, positive, outs):
     if _is_enum(l) and _is_enum(r):
         outs.append((s, "val", C((l == r) == positive)))  # enum members are singletons
         return
+    def _sentinel(x):
+        if is_lit(x, "object"):
+            return x
+        if isinstance(x, tuple) and len(x) == 2 and x[0] == "global" and x[1].startswith("const:"):
+            lit = w.const_literal(x, s)
+            if is_lit(lit, "object") or (is_call(lit, "builtin:object") and not lit[2] and not lit[3]):
+                return ("lit", "object", (), (x[1],))  # NAME = object() at module level
+        return x
+
+    l, r = _sentinel(l), _sentinel(r)
     if is_lit(l, "object") or is_lit(r, "object"):
         # a sentinel made by object(): identical to itself, and to nothing that existed before it
         # was made or that is a value of another kind
